@@ -72,6 +72,9 @@ mod png;
 mod reduction;
 #[cfg(feature = "sanity-checks")]
 mod sanity_checks;
+#[cfg(feature = "verif")]
+#[doc(hidden)]
+pub mod verif;
 
 /// Private to oxipng; don't use outside tests and benches
 #[doc(hidden)]
@@ -442,6 +445,10 @@ fn optimize_raw(
     );
     let mut new_image = perform_reductions(image.clone(), opts, &deadline, &eval);
     let eval_result = eval.get_best_candidate();
+    #[cfg(feature = "verif")]
+    crate::verif::emit(|| crate::verif::Event::Collected {
+        winner: eval_result.as_ref().map(|c| c.verif_key()),
+    });
     if let Some(ref result) = eval_result {
         new_image = result.image.clone();
     }
@@ -470,6 +477,12 @@ fn optimize_raw(
         (eval_result?, eval_deflater)
     };
 
+    #[cfg(feature = "verif")]
+    crate::verif::emit(|| crate::verif::Event::Final {
+        key: result.verif_key(),
+        data_is_compressed: result.data_is_compressed,
+        data_len: result.data.len(),
+    });
     if result.data_is_compressed
         && max_size.map_or(true, |max_size| result.estimated_output_size < max_size)
     {
@@ -516,6 +529,10 @@ fn perform_trials(
             if let Some(result) = eval.get_best_candidate() {
                 eval_result = Some(result);
             }
+            #[cfg(feature = "verif")]
+            crate::verif::emit(|| crate::verif::Event::CollectedFast {
+                winner: eval_result.as_ref().map(|c| c.verif_key()),
+            });
         }
 
         // We should have a result here - fail if not (e.g. deadline passed)
@@ -592,6 +609,10 @@ impl Deadline {
     ///
     /// If the verbose option is on, it also prints a timeout message once.
     pub fn passed(&self) -> bool {
+        #[cfg(feature = "verif")]
+        if let Some(answer) = crate::verif::deadline_override() {
+            return answer;
+        }
         if let Some(imp) = &self.imp {
             let elapsed = imp.start.elapsed();
             if elapsed > imp.timeout {
